@@ -402,7 +402,7 @@ def main():
         run.violation("table translator failed closed: " + "; ".join(errors), dict(kind="translator", errors=errors), False)
         return run.finish()
     if changed: run.log("tables regenerated from source:", changed)
-    ok, log = run.build(["Proofs/C09/Tables.vo", "Proofs/C09/TextField.vo", "Proofs/C09/Times.vo", "Proofs/C09/Datafile.vo",
+    ok, log = run.build(["Proofs/C09/Tables.vo", "Proofs/C09/TextField.vo", "Proofs/C09/Text.vo", "Proofs/C09/Times.vo", "Proofs/C09/Datafile.vo",
                          "Model/StlCases.vo"], clean=(run.tier == "thorough"))
     proofs_ok = ok and run.theorems()
     if not ok: run.proof_log = log[-2500:]
